@@ -50,6 +50,7 @@ fn main() {
         "C25" => props::c25::run(&mut ctx, &mut report),
         "C23" => props::c23::run(&mut ctx, &mut report),
         "C18" => props::c18::run(&mut ctx, &mut report),
+        "C16" => props::c16::run(&mut ctx, &mut report),
         "C02" | "C03" | "C04" | "C05" | "C06" | "C07" | "C09" | "C10" | "C19" | "C20" => {
             props::hist::run_property(&prop, &mut ctx, &mut report);
             // the per-state mergers and FSMs these properties rest on: component-level correspondence with the model
